@@ -80,7 +80,7 @@ InitEv ==
      /\ mode' = IF Ev.ret = 0 THEN "U" ELSE IF p.ok THEN "A" ELSE "S"
      /\ nA' = nA + (IF p.ok THEN 1 ELSE 0) /\ nS' = nS + (IF p.ok THEN 0 ELSE 1) /\ hist' = "" /\ full' = <<TRUE, FALSE>>
      /\ IF p.ok /\ Ev.ret = 0 THEN Fail("C02", "init rejects a well-formed document")
-        ELSE bad' = bad
+        ELSE bad' = ""
 
 \* verify / reset: a clean start (C12); verify's verdict is Layer A's (C02)
 AgainEv ==
@@ -162,9 +162,12 @@ CallEv ==
                             ELSE bad
         ELSE bad' = bad /\ UNCHANGED <<c, mode, stk, on, allOk>>
 
-Next == /\ l <= Len(Tr) /\ bad = "" /\ l' = l + 1
-        /\ (InitEv \/ AgainEv \/ CallEv)
-        /\ (bad' # "" => PrintT("TRACE-VIOLATION " \o bad'))
+\* After a disagreement the rest of that execution is skipped (nothing is specified about a parser that has
+\* already deviated) and validation resumes at the next init event, so one trace can report several findings.
+Next == /\ l <= Len(Tr) /\ l' = l + 1
+        /\ IF bad # "" /\ Ev.e # "I"
+           THEN UNCHANGED <<buf, root, maxd, pr, c, mode, stk, on, allOk, prevErr, d0, bad, nA, nS, hist, full>>
+           ELSE (InitEv \/ AgainEv \/ CallEv) /\ (bad' # "" => PrintT("TRACE-VIOLATION " \o bad'))
         /\ (l' > Len(Tr) => PrintT(<<"TRACE-SUMMARY", Len(Tr), nA', nS'>>))
 Spec == Init /\ [][Next]_vars
 
